@@ -32,6 +32,8 @@ def validate(nv, faces):
         used.update(F)
     if len(used) != nv:
         return "isolated vertex"
+    if len({tuple(sorted(F)) for F in faces}) != len(faces):
+        return "two faces on the same three vertices"
     de = directed_edges(faces)
     for k, l in de.items():
         if len(l) > 1:
